@@ -238,6 +238,13 @@ def slice_unit(name, u, outdir, manifest):
         raw = src[start:semi + 1]
         text = apply_rules(raw, rules, fired)
         end = semi + 1
+    elif kind == "span":
+        me = re.compile(u["end"]).search(src, mo.end())
+        if not me:
+            raise SliceError("%s: span end %r not found" % (name, u["end"]))
+        end = me.end()
+        raw = src[start:end]
+        text = apply_rules(raw, rules, fired)
     elif kind == "macro":
         end = start
         while True:
@@ -287,10 +294,9 @@ def slice_unit(name, u, outdir, manifest):
             if k >= len(loops):
                 raise SliceError("%s: loop contract for loop %d but only %d loops" % (name, k, len(loops)))
             kindk, idx = loops[k]
-            cont = u.get("loop_macro_cont", False)
-            clause = "\n" + lc[k].strip() + "\n"
-            if cont:
-                clause = " \\\n" + " \\\n".join(lc[k].strip().splitlines()) + " \\\n"
+            ltext, cont = (lc[k], False) if isinstance(lc[k], str) else lc[k]
+            # one line, so that #line numbering of the sliced text is not shifted
+            clause = " " + " ".join(x.strip() for x in ltext.strip().splitlines()) + " "
             body = body[:idx] + clause + body[idx:]
         body = apply_rules(body, rules, fired)
         sig = apply_rules("%s %s(%s)" % (rtype, cname, cparams), DEFAULT_RULES, {})
@@ -309,15 +315,23 @@ def slice_unit(name, u, outdir, manifest):
             fired["auto:" + a] = n
             if n == 0:
                 raise SliceError("%s: auto table entry %s did not fire" % (name, a))
-        storage = u.get("storage", "static inline")
-        pre = ""
         text = ""
+        tdefs = [d for d in defs if any(d.startswith("#define %s " % k) for k in u.get("tparams", {}))]
+        defs = [d for d in defs if d not in tdefs]
+        text += "\n".join(tdefs) + ("\n" if tdefs else "")
         # contract-bearing forward declaration (written against the un-macro'd names)
         if u.get("contract"):
             text += "%s\n%s\n;\n" % (sig, u["contract"].strip())
         text += "\n".join(defs) + ("\n" if defs else "")
+        # named check classes switched off inside this one function (an *observation*, see DESIGN
+        # section 3); a job compiled with -DOBSERVE_ALL keeps them on and reports what they flag
+        cd = u.get("check_disable", [])
+        if cd:
+            text += "#ifndef OBSERVE_ALL\n#pragma CPROVER check push\n" + "".join('#pragma CPROVER check disable "%s"\n' % c for c in cd) + "#endif\n"
         text += "#line %d \"%s\"\n" % (line, os.path.join(REPO, path))
         text += "%s\n%s\n" % (sig, body)
+        if cd:
+            text += "#ifndef OBSERVE_ALL\n#pragma CPROVER check pop\n#endif\n"
         text += "\n".join(undefs) + ("\n" if undefs else "")
         if u.get("callmacro"):
             text += u["callmacro"].strip() + "\n"
@@ -342,6 +356,7 @@ def slice_unit(name, u, outdir, manifest):
         "kind": kind,
         "rules_fired": {k: v for k, v in fired.items() if v},
         "loop_contracts": sorted(u.get("loops", {}).keys()),
+        "checks_disabled_in_function": u.get("check_disable", []),
     }
     return fn
 
